@@ -265,8 +265,26 @@ pub fn line() -> impl Strategy<Value = Line> {
         .prop_map(|(mnemonic, ops, spell)| Line { mnemonic, ops, spell })
 }
 
+/// 1..=max lines; about one line in six repeats an earlier line of the same text (half of them
+/// the line just before it, with the same or a different spelling) - an assembler that caches or
+/// short-cuts on repeated input must still emit every instruction in full.
 pub fn program(max: usize) -> impl Strategy<Value = Vec<Line>> {
-    prop::collection::vec(line(), 1..=max)
+    prop::collection::vec((line(), 0u8..=255, any::<u16>()), 1..=max).prop_map(|v| {
+        let mut out: Vec<Line> = Vec::with_capacity(v.len());
+        for (k, (l, sel, idx)) in v.into_iter().enumerate() {
+            if k > 0 && sel < 44 {
+                let j = if sel < 22 { k - 1 } else { (idx as usize * k) >> 16 };
+                let mut c = out[j].clone();
+                if sel % 2 == 0 {
+                    c.spell = l.spell;
+                }
+                out.push(c);
+            } else {
+                out.push(l);
+            }
+        }
+        out
+    })
 }
 
 // ---- parser for the disassembler's text ------------------------------------------------------
